@@ -14,7 +14,7 @@ PROP = dict(
                     "Exploration, not proof: lengths between the boundaries are sampled."),
         level_note=("trusts the byte-array shadow in harness/c16_ident.c / c16_cxx.cpp, gcc ASan/UBSan red zones and poison state, "
                     "LeakSanitizer (conservative scan: secondary to the explicit release witness)"),
-        legs=[dict(name="c16_ident", src=["c16_ident.c"], libs=["mptcore"], batch=256, lsan=True,
+        legs=[dict(name="c16_ident", memcheck=1500, src=["c16_ident.c"], libs=["mptcore"], batch=256, lsan=True,
                    floors={"mpt_identifier_set": 50000, "mpt_identifier_copy": 20000, "mpt_identifier_compare": 100000,
                            "mpt_identifier_inequal": 20000, "mpt_node_locate": 5000, "mpt_node_clone": 50,
                            "traits.init(copy)": 200, "transition:long>short": 5000, "transition:short>long": 5000,
